@@ -111,12 +111,15 @@ def build_reference(case, d):
     gn = _names(rng, rng.choice(['g', 'G', 'x']), min(NG, 16))
     gn += [f'h{j}' for j in range(NG - len(gn))]
     rows, obs = [], []
+    deep = case['mode'] == 'raw' and case['seed'] % 2 == 0
     for i, (c, s) in enumerate(shape):
         n = rng.randint(*case['cells'])
         for k in range(n):
             v = [1 if rng.random() < 0.15 else 0 for _ in range(NG)]
             v[2 * i] = rng.randint(2, 3)
             v[2 * i + 1] = rng.randint(2, 3)
+            if deep and i % 2 == 0:
+                v[2 * i] = 12                   # 4095 counts in a million: beyond 2^31 once multiplied by 10^6 in 32 bits
             if rng.random() < 0.5:
                 v[2 * L + (c % 3)] = 2          # a class-flavoured gene
             rows.append(v)
@@ -132,6 +135,9 @@ def build_reference(case, d):
         pos = rng.randrange(NG + 1)
         X = np.hstack([X[:, :pos], fill[:, None], X[:, pos:]])
         genes = genes[:pos] + ['filler'] + genes[pos:]
+        if case['seed'] % 2 == 0:
+            # counts as many tools store them: 32-bit integers (every count, and every cell's total of 10^6, fits)
+            X = X.astype(np.int32)
     else:
         X = V.astype(float)
     M = sp.csr_matrix(X) if case['enc'] == 'csr' else sp.csc_matrix(X) if case['enc'] == 'csc' else X
